@@ -252,6 +252,10 @@ func runC10(c *core.Ctx) error {
 	for _, p := range prog.Pkgs {
 		checkGlobalWrites(c, r3, prog, p.PkgPath, core.ShortPkg(p.PkgPath))
 	}
+	for _, p := range prog.Pkgs {
+		checkGlobalRefEscapeOpt(c, r3, prog, p.PkgPath, core.ShortPkg(p.PkgPath), true)
+		checkGlobalMethodCalls(c, r3, prog, p.PkgPath, core.ShortPkg(p.PkgPath))
+	}
 	checkBufferReset(c, r3, prog)
 	checkGlobalMutationDeep(c, r3, prog, an, inScope)
 
@@ -342,6 +346,23 @@ func classifyMapRange(c *core.Ctx, an *effects.Analysis, fn *ssa.Function, rg *s
 	)
 	phiSeen := map[*ssa.Phi]bool{}
 	var classify func(v ssa.Value, depth int) (cls, ssa.Value)
+	cellSeen := map[*ssa.Alloc]bool{}
+	cellContent := func(al *ssa.Alloc, depth int) (cls, ssa.Value) {
+		worst, wv := clsLocal, ssa.Value(al)
+		if cellSeen[al] {
+			return worst, wv
+		}
+		cellSeen[al] = true
+		defer delete(cellSeen, al)
+		for _, ref := range *al.Referrers() {
+			if st, ok := ref.(*ssa.Store); ok && st.Addr == ssa.Value(al) {
+				if k, r := classify(st.Val, depth+1); k > worst {
+					worst, wv = k, r
+				}
+			}
+		}
+		return worst, wv
+	}
 	classify = func(v ssa.Value, depth int) (cls, ssa.Value) {
 		if depth == 0 {
 			phiSeen = map[*ssa.Phi]bool{}
@@ -383,6 +404,11 @@ func classifyMapRange(c *core.Ctx, an *effects.Analysis, fn *ssa.Function, rg *s
 				if x.Op != token.MUL {
 					return clsLocal, x
 				}
+				// a reference loaded out of a body-local variable cell (a per-iteration copy captured by a
+				// closure): what is written through it is what the cell refers to
+				if al, ok := x.X.(*ssa.Alloc); ok && inBody(al.Block()) && isRefLike(x.Type()) {
+					return cellContent(al, depth)
+				}
 				v = x.X
 			case *ssa.ChangeType:
 				v = x.X
@@ -417,6 +443,11 @@ func classifyMapRange(c *core.Ctx, an *effects.Analysis, fn *ssa.Function, rg *s
 		return clsOuter, v
 	}
 
+	// the element root is the map VALUE (not the key) and it is a reference: objects may be shared between keys
+	sharedElem := func(root ssa.Value) bool {
+		ex, ok := root.(*ssa.Extract)
+		return ok && ex.Tuple == ssa.Value(next) && ex.Index == 2 && isRefLike(ex.Type())
+	}
 	sortedLaterAddr := func(addr ssa.Value) bool {
 		for _, b := range fn.Blocks {
 			if inBody(b) {
@@ -509,6 +540,9 @@ func classifyMapRange(c *core.Ctx, an *effects.Analysis, fn *ssa.Function, rg *s
 			switch x := in.(type) {
 			case *ssa.Store:
 				k, root := classify(x.Addr, 0)
+				if k == clsElement && sharedElem(root) && x.Addr != root && !isConstLike(x.Val) {
+					add(core.InstrPos(x), "element-pointee: store through the map value (a reference): two keys that hold the same object see each other's writes, so which write comes first depends on the order")
+				}
 				if k != clsOuter {
 					continue
 				}
@@ -554,6 +588,9 @@ func classifyMapRange(c *core.Ctx, an *effects.Analysis, fn *ssa.Function, rg *s
 				}
 			case *ssa.MapUpdate:
 				// insertion into any map: order-insensitive under the single-value-per-key assumption
+				if k, root := classify(x.Map, 0); k == clsElement && sharedElem(root) && x.Map != root {
+					add(core.InstrPos(x), "element-pointee: map insert through the map value (a reference): two keys that hold the same object see each other's writes, so which write comes first depends on the order")
+				}
 				continue
 			case *ssa.Send, *ssa.Go, *ssa.Defer:
 				add(core.InstrPos(x), "%T inside the loop body", x)
@@ -590,11 +627,27 @@ func classifyMapRange(c *core.Ctx, an *effects.Analysis, fn *ssa.Function, rg *s
 					continue
 				}
 				for _, ce := range an.CalleeEffects(x) {
+					if ce.Effect.Kind == "append" {
+						continue // the result's fate is judged where it is stored
+					}
+					if ce.On != nil {
+						k, root := classify(ce.On, 0)
+						if al, ok := ce.On.(*ssa.Alloc); ok && ce.Effect.Root == effects.Free && ce.Effect.Deep && inBody(al.Block()) {
+							k, root = cellContent(al, 1)
+						}
+						if k == clsElement && sharedElem(root) {
+							add(core.InstrPos(x), "element-pointee: call of %s performs a %s through the map value (a reference): two keys that hold the same object see each other's writes, so which write comes first depends on the order", core.CalleeName(x.Common()), ce.Effect.String())
+						}
+					}
 					if ce.Effect.Kind == "mapinsert" {
 						continue
 					}
 					if ce.On != nil {
-						if k, _ := classify(ce.On, 0); k != clsOuter {
+						k, _ := classify(ce.On, 0)
+						if al, ok := ce.On.(*ssa.Alloc); ok && ce.Effect.Root == effects.Free && ce.Effect.Deep && inBody(al.Block()) {
+							k, _ = cellContent(al, 1)
+						}
+						if k != clsOuter {
 							continue
 						}
 						add(core.InstrPos(x), "call of %s performs a %s", core.CalleeName(x.Common()), ce.Effect.String())
@@ -1121,6 +1174,14 @@ func onlyDiagnosticUses(v ssa.Value, fn *ssa.Function) bool {
 	return true
 }
 
+func isRefLike(t types.Type) bool {
+	switch t.Underlying().(type) {
+	case *types.Pointer, *types.Slice, *types.Map, *types.Interface, *types.Chan, *types.Signature:
+		return true
+	}
+	return false
+}
+
 func describeRoot(v ssa.Value) string {
 	switch x := v.(type) {
 	case *ssa.Alloc:
@@ -1351,6 +1412,19 @@ func checkTemplatesOnlyRead(c *core.Ctx, r *core.Rule, prog *core.Prog, an *effe
 			continue
 		}
 		if why, ok := exc[key]; ok {
+			// an entry with an effects list covers exactly those effects
+			if fp := excEffects[key]; fp != nil {
+				var fresh []string
+				for _, b := range bad {
+					if !fp[b] {
+						fresh = append(fresh, b)
+					}
+				}
+				if len(fresh) > 0 {
+					r.Fail(key, c.Pos(pos), fmt.Sprintf("%s is in the reviewed table, but now has an effect the review did not cover: %s", core.FuncName(f), strings.Join(fresh, "; ")))
+					continue
+				}
+			}
 			r.Justified++
 			r.Pass(fmt.Sprintf("%s: %d effects, reviewed: %s", core.FuncName(f), len(bad), why))
 			continue
